@@ -284,3 +284,26 @@ DONE_FROM = {
 DONE_RETURN = {"OPEnv": "i", "PCTSPEnv": "i", "SPCTSPEnv": "i"}
 # completion = quota reached on the pre-increment counter (shared with C08)
 DONE_QUOTA = {"FLPEnv": ("i", {"to_choose"}), "MCPEnv": ("i", {"n_sets_to_choose"}), "DPPEnv": ("i", set()), "MDPPEnv": ("i", set())}
+
+# ------------------------------------------------------------------------------------------
+# C01.h -- direction of the state updates (monotonicity signature): +1 the new value grows with
+# the cell, -1 it shrinks, both = enters on both sides (e.g. through min(demand, cap - used)).
+# '|dist|' stands for a travelled distance (get_distance / norm), an opaque non-negative quantity.
+P, N, PN = {1}, {-1}, {-1, 1}
+UPDATE_SIGN = {
+    "CVRPEnv": {"used_capacity": {"used_capacity": P, "demand": P}},
+    "CVRPTWEnv": {"used_capacity": {"used_capacity": P, "demand": P},
+                  "current_time": {"current_time": P, "distances": P, "time_windows": P, "durations": P}},
+    "SDVRPEnv": {"used_capacity": {"used_capacity": PN, "demand_with_depot": P, "vehicle_capacity": P},
+                 "demand_with_depot": {"demand_with_depot": PN, "used_capacity": P, "vehicle_capacity": N}},
+    "SVRPEnv": {"current_tech": {"current_tech": P}},
+    "OPEnv": {"tour_length": {"tour_length": P, "|dist|": P}, "current_total_prize": {"current_total_prize": P, "prize": P}},
+    "PCTSPEnv": {"cur_total_prize": {"cur_total_prize": P, "real_prize": P}},
+    "MTSPEnv": {"current_length": {"current_length": P, "|dist|": P}, "agent_idx": {"agent_idx": P}},
+    "MDCPDPEnv": {"current_length": {"current_length": P, "|dist|": P}, "current_carry": {"current_carry": P}},
+    "MTVRPEnv": {"current_time": {"current_time": P, "|dist|": P, "speed": N, "time_windows": P, "service_time": P},
+                 "current_route_length": {"current_route_length": P, "|dist|": P},
+                 "used_capacity_linehaul": {"used_capacity_linehaul": P, "demand_linehaul": P},
+                 "used_capacity_backhaul": {"used_capacity_backhaul": P, "demand_backhaul": P}},
+}
+UPDATE_SIGN["SPCTSPEnv"] = UPDATE_SIGN["PCTSPEnv"]
